@@ -8,6 +8,7 @@ import Proofs.StepToks
 import Proofs.Undo
 import Proofs.UndoReplace
 import Proofs.UndoForward
+import Proofs.UndoAround
 namespace PM.C04
 open PM
 
@@ -547,6 +548,248 @@ theorem replaceAround_undo_partial (S : Schema) (doc doc' doc'' : Node) (f t gf 
           win_drop _ _ _ (by simp; omega)]
         simp
       rw [ftoks_inj K'' K hn'' hn this]
+
+/- The full statement for replace-around steps,
+
+     replaceAround_undo_unguarded : (hd : S.checkNode doc) (hn : fnorm doc.kids) (hsn : fnorm sl.content) …
+         (h1 : S.apply (.replaceAround f t gf gt sl ins b) doc = .ok doc') (hi : S.invert … doc = .ok inv) :
+         S.apply inv doc' = .ok doc
+
+   is FALSE in the model and in the code, for three independent reasons, each a check of the inverse step
+   that a successful forward step does not imply:
+   * the structure flag (known finding C04-structure-inverse): the inverse inherits `structure = true` and
+     refuses when the slice carried content beside the wrapper tokens — hypothesis `hst`;
+   * the fit check of `insert_into` (`parent.can_replace(index, index, insert)`), which at a position inside
+     a text child counts that text twice, and after `remove_range` merged two texts around the gap puts the
+     gap before the merged text: e.g. `X "text?"`, `doc(X("abXYcd"))`, replace-around 0…8 with gap 3…5 and
+     slice `Z()`: the inverse is rejected with "Content does not fit in gap" — hypothesis `hfit`;
+   * the final replace of the inverse, as for plain replace steps — guard `hj` (`sidesCompatible` for the
+     slice with the gap inserted).
+   `replaceAround_undo` below proves the statement under these three decidable hypotheses (and the
+   pair-alignment proviso). -/
+
+/-- **the inverse of a successfully applied replace-around step applies and restores the document**,
+    provided the three checks of the inverse that the forward step does not imply pass:
+    `hst` — the structure checks of the inverse (only if the step carries the structure flag);
+    `hfit` — putting the gap back into the old slice is not rejected by `insert_into`'s fit check;
+    `hj` — the guard of `replace_undo` for the slice with the gap inserted.
+    `ha`: the four positions the inverse resolves in `doc'` do not split a surrogate pair. -/
+theorem replaceAround_undo (S : Schema) (doc doc' : Node) (f t gf gt : Nat) (sl : Slice)
+    (ins : Nat) (b : Bool) (inv : Step)
+    (hd : S.checkNode doc = true) (hn : fnorm doc.kids = true) (hsn : fnorm sl.content = true)
+    (hwf : sl.wf = true) (hins : (ins : Int) ≤ sl.size) (hg : f ≤ gf ∧ gf ≤ gt ∧ gt ≤ t)
+    (h1 : S.apply (.replaceAround f t gf gt sl ins b) doc = .ok doc')
+    (hi : S.invert (.replaceAround f t gf gt sl ins b) doc = .ok inv)
+    (hst : b = true → contentBetween doc' f (f + ins) = some false ∧
+      contentBetween doc' (f + ins + (gt - gf)) (f + sl.size.toNat + (gt - gf)) = some false)
+    (hfit : ∀ old rem gap, doc.slice f t = .ok old → old.removeBetween (gf - f) (gt - f) = .ok rem →
+      doc.slice gf gt = .ok gap → ∃ x, rem.insertAt S (gf - f) gap.content = .ok (some x))
+    (hj : ∀ gap inserted, doc.slice gf gt = .ok gap → sl.insertAt S ins gap.content = .ok (some inserted) →
+      sidesCompatible S doc f t inserted = true)
+    (ha : alignedAt doc'.kids f = true ∧ alignedAt doc'.kids (f + ins) = true ∧
+      alignedAt doc'.kids (f + ins + (gt - gf)) = true ∧
+      alignedAt doc'.kids (f + sl.size.toNat + (gt - gf)) = true) :
+    S.apply inv doc' = .ok doc := by
+  obtain ⟨gap, inserted, hgap, hgo1, hgo2, hinst, hfr1⟩ :=
+    apply_replaceAround_parts S doc doc' f t gf gt sl ins b h1
+  obtain ⟨hK', htK, _⟩ := apply_replaceAround_toks S doc doc' f t gf gt sl ins b hwf hins hg h1
+  have hj' := hj gap inserted hgap hinst
+  obtain ⟨ty, a, m, K, K', rfl, rfl, hr1⟩ := fromReplace_elem S doc doc' f t inserted hfr1
+  simp only [Node.kids] at hn hK' htK ha
+  have hgap' : sliceKids K gf gt = .ok gap := hgap
+  have hgn := sliceKids_norm K gf gt gap hn hgap'
+  have hin := insertAt_norm S sl inserted ins gap.content hsn hgn.1 hinst
+  have hn' := replaceKids_norm S ty K f t inserted K' hn hin hr1
+  obtain ⟨hTlen, _⟩ := Slice.toks_length_of_wf hwf
+  have hs0 : 0 ≤ sl.size := by omega
+  -- the gap's tokens
+  have hgclosed : gap = ⟨gap.content, 0, 0⟩ := by
+    cases gap; simp at hgo1 hgo2; simp [hgo1, hgo2]
+  have hGt : ftoks gap.content = ((ftoks K).drop gf).take (gt - gf) := by
+    rw [← Slice.toks_closed, ← hgclosed]
+    exact sliceKids_toks K gf gt gap hg.2.1 (by omega) hgap'
+  have hGlen : (ftoks gap.content).length = gt - gf := by
+    rw [hGt]; simp [ftoks_length]; omega
+  -- the inserted slice: the step is the plain replace by it
+  obtain ⟨hitk, hio1, hio2⟩ := insertAt_toks S sl inserted ins gap.content hwf hins hinst
+  have hisz : inserted.size.toNat = sl.size.toNat + (gt - gf) := by
+    have h1 := congrArg List.length hitk
+    have hw : inserted.wf = true := (replaceKids_guards S ty K f t inserted K' hr1).2.2
+    obtain ⟨hl2, _⟩ := Slice.toks_length_of_wf hw
+    simp only [List.length_append, List.length_take, List.length_drop, hGlen] at h1
+    omega
+  -- the inverse
+  simp only [Schema.invert] at hi
+  cases hsl : (Node.elem ty a m K).slice f t with
+  | error e => simp [hsl] at hi
+  | ok old =>
+    simp only [hsl] at hi
+    cases hrm : old.removeBetween (gf - f) (gt - f) with
+    | error e => simp [hrm] at hi
+    | ok rem =>
+      simp only [hrm, Except.ok.injEq] at hi
+      subst hi
+      have hsl' : sliceKids K f t = .ok old := hsl
+      have hon := sliceKids_norm K f t old hn hsl'
+      have hosz := sliceKids_size K f t old (by omega) htK hsl'
+      obtain ⟨x, hx⟩ := hfit old rem gap hsl hrm hgap
+      -- the gap is found again in `doc'`
+      obtain ⟨A, P, G, Q, D, hK, hA, hP, hG, hQ⟩ := split5 (ftoks K) f gf gt t hg.1 hg.2.1 hg.2.2
+        (by rw [ftoks_length]; exact htK)
+      have eA : (ftoks K).take f = A := by
+        rw [hK, show A ++ P ++ G ++ Q ++ D = A ++ (P ++ G ++ Q ++ D) by simp]
+        exact win_take _ _ _ hA
+      have eG : ((ftoks K).drop gf).take (gt - gf) = G := by
+        rw [hK, show A ++ P ++ G ++ Q ++ D = (A ++ P) ++ G ++ (Q ++ D) by simp]
+        exact win_mid _ _ _ _ _ (by simp; omega) hG
+      have eD : (ftoks K).drop t = D := by
+        rw [hK]
+        exact win_drop _ _ _ (by simp; omega)
+      have eO : old.toks = P ++ G ++ Q := by
+        rw [sliceKids_toks K f t old (by omega) htK hsl', hK,
+          show A ++ P ++ G ++ Q ++ D = A ++ (P ++ G ++ Q) ++ D by simp]
+        exact win_mid _ _ _ _ _ hA (by simp; omega)
+      rw [eA, eG, eD] at hK'
+      rw [eG] at hGt
+      have hBl : (sl.toks.take ins).length = ins := by simp; omega
+      have hK'sz : fsize K' = f + ins + (gt - gf) + (sl.size.toNat - ins) + D.length := by
+        rw [← ftoks_length K', hK']; simp; omega
+      obtain ⟨gap2, hgap2⟩ := sliceKids_total K' (f + ins) (f + ins + (gt - gf)) (by omega) (by omega)
+        ha.2.1 ha.2.2.1 hn'
+      have hg2n := sliceKids_norm K' _ _ gap2 hn' hgap2
+      have hXY : ftoks K' = (A ++ sl.toks.take ins) ++ G ++ (sl.toks.drop ins ++ D) := by
+        rw [hK']; simp
+      have hXl : (A ++ sl.toks.take ins).length = f + ins := by simp; omega
+      have hg2closed : gap2.openStart = 0 ∧ gap2.openEnd = 0 := by
+        by_cases hg0 : gt - gf = 0
+        · rw [hg0] at hgap2
+          simp [sliceKids] at hgap2
+          subst hgap2; exact ⟨rfl, rfl⟩
+        · refine sliceKids_closed K' _ _ gap2 (by omega) (by omega) hgap2 ?_ ?_
+          · intro k hk1 hk2
+            have e1 : (ftoks K').take (f + ins) = A ++ sl.toks.take ins := by
+              rw [hXY, List.append_assoc]; exact win_take _ _ _ hXl
+            have e2 : (ftoks K').take k = (A ++ sl.toks.take ins) ++ G.take (k - (f + ins)) := by
+              rw [hXY, List.append_assoc, take_app_ge _ _ _ (by omega), hXl,
+                take_app_le _ _ _ (by omega)]
+            rw [e1, e2]
+            simp only [balance_append]
+            have := balance_prefix_nonneg gap.content (k - (f + ins))
+            rw [hGt] at this
+            omega
+          · have e1 : (ftoks K').take (f + ins) = A ++ sl.toks.take ins := by
+              rw [hXY, List.append_assoc]; exact win_take _ _ _ hXl
+            have e2 : (ftoks K').take (f + ins + (gt - gf)) = (A ++ sl.toks.take ins) ++ G := by
+              rw [hXY]; exact win_take _ _ _ (by simp; omega)
+            rw [e1, e2]
+            simp only [balance_append]
+            have := balance_ftoks gap.content
+            rw [hGt] at this
+            omega
+      have eG2 : gap2.content = gap.content := by
+        apply ftoks_inj _ _ hg2n.1 hgn.1
+        have : gap2 = ⟨gap2.content, 0, 0⟩ := by
+          cases gap2; simp at hg2closed; simp [hg2closed.1, hg2closed.2]
+        rw [hGt, ← Slice.toks_closed, ← this,
+          sliceKids_toks K' _ _ gap2 (by omega) (by omega) hgap2, hXY,
+          show f + ins + (gt - gf) - (f + ins) = gt - gf by omega]
+        exact win_mid _ _ _ _ _ hXl hG
+      -- putting the gap back gives the old slice
+      have hxo : x = old := by
+        have e : gt - f = (gf - f) + (gt - gf) := by omega
+        rw [e] at hrm
+        refine reinsert_gap_eq S old rem x (gf - f) (gt - gf) gap.content hon.2 hon.1 hgn.1
+          (by rw [hosz]; omega) hrm ?_ hx
+        rw [hGt, eO, show P ++ G ++ Q = P ++ (G ++ Q) by simp, win_drop _ _ _ hP]
+        exact (win_take _ _ _ hG).symm
+      subst hxo
+      -- the final replace of the inverse is the inverse of the plain replace by `inserted`
+      have h1r : S.apply (.replace f t inserted false) (Node.elem ty a m K) = .ok (Node.elem ty a m K') := by
+        simpa [Schema.apply] using hfr1
+      have hir : S.invert (.replace f t inserted false) (Node.elem ty a m K)
+          = .ok (.replace f (f + inserted.size.toNat) x false) := by
+        simp [Schema.invert, hsl]
+      have hfin := replace_undo S _ _ f t inserted false _ hd (by simpa [Node.kids] using hn) hin h1r hir hj'
+        (by simp only [Node.kids]; rw [hisz, ← Nat.add_assoc]; exact ⟨ha.1, ha.2.2.2⟩)
+      rw [hisz, ← Nat.add_assoc] at hfin
+      simp only [Schema.apply, Bool.false_eq_true, if_false] at hfin
+      -- assemble
+      have hgap2' : (Node.elem ty a m K').slice (f + ins) (f + ins + (gt - gf)) = .ok gap2 := hgap2
+      have hx' : rem.insertAt S (gf - f) gap2.content = .ok (some x) := by rw [eG2]; exact hx
+      cases b with
+      | false =>
+        simp [Schema.apply, hgap2', hg2closed.1, hg2closed.2, hx', hfin]
+      | true =>
+        obtain ⟨c1, c2⟩ := hst rfl
+        simp [Schema.apply, c1, c2, hgap2', hg2closed.1, hg2closed.2, hx', hfin]
+
+/-! Non-vacuity of `replaceAround_undo`: wrapping `p("ab")` of `doc(p("ab"))` in a `quote`
+    (replace-around 0…4, gap 0…4, slice `quote()`, insert 1) gives `doc(quote(p("ab")))`; the inverse
+    (replace-around 0…6, gap 1…5, empty slice) lifts it out again. -/
+section ExampleAround
+private def wnt (name : String) (dfa : Array DfaState) : NodeType :=
+  { name := name, isText := false, isInline := false, isLeaf := false, isAtom := false,
+    inlineContent := false, isolating := false, defining := false, code := false,
+    dfa := dfa, markSet := some [], attrs := [] }
+
+/-- doc "(para|quote)*", quote "para*", para "text*" -/
+private def wrapS : Schema :=
+  { nodes := #[
+      wnt "doc" #[⟨true, [(1, 0), (2, 0)]⟩],
+      wnt "para" #[⟨true, [(3, 0)]⟩],
+      wnt "quote" #[⟨true, [(1, 0)]⟩],
+      { wnt "text" #[⟨true, []⟩] with isText := true, isInline := true, isLeaf := true, isAtom := true }],
+    marks := #[], top := 0, textTy := 3 }
+
+private def wDoc : Node := .elem 0 [] [] [.elem 1 [] [] [.text [97, 98] []]]
+private def wDoc' : Node := .elem 0 [] [] [.elem 2 [] [] [.elem 1 [] [] [.text [97, 98] []]]]
+private def wSl : Slice := ⟨[.elem 2 [] [] []], 0, 0⟩
+private def wInv : Step := .replaceAround 0 6 1 5 ⟨[], 0, 0⟩ 0 false
+
+private theorem w_slice : wDoc.slice 0 4 = .ok ⟨[.elem 1 [] [] [.text [97, 98] []]], 0, 0⟩ := by
+  simp [Node.slice, Node.kids, wDoc, sliceKids, inRange, sliceScan, sliceHere, fcut, depthAt]
+
+private theorem w_ins : wSl.insertAt wrapS 1 [.elem 1 [] [] [.text [97, 98] []]]
+    = .ok (some ⟨[.elem 2 [] [] [.elem 1 [] [] [.text [97, 98] []]]], 0, 0⟩) := by
+  have hc : wrapS.canReplace 2 [] 0 0 [Node.elem 1 [] [] [Node.text [97, 98] []]] 0 1 = some true := by decide
+  simp [Slice.insertAt, wSl, insertInto, flatInsert, hc, fcut, fappend]
+
+private theorem w_fwd : wrapS.apply (.replaceAround 0 4 0 4 wSl 1 false) wDoc = .ok wDoc' := by
+  have hv : wrapS.validContent 0 [Node.elem 2 [] [] [Node.elem 1 [] [] [Node.text [97, 98] []]]] = true := by
+    decide
+  simp only [Schema.apply, w_slice, w_ins]
+  simp [Schema.fromReplace, Schema.replace, wDoc, wDoc', replaceKids, inRange, depthAt, Slice.wf, spineL,
+    spineR, outer, atLevel, fcut, fappend, hv, Except.map]
+
+private theorem w_inv : wrapS.invert (.replaceAround 0 4 0 4 wSl 1 false) wDoc = .ok wInv := by
+  simp only [Schema.invert, w_slice]
+  simp [Slice.removeBetween, removeRange, removeRange.removeFlat, inRange, flatAt, fcut, fappend, wSl,
+    Slice.size, wInv]
+
+example : wrapS.apply wInv wDoc' = .ok wDoc := by
+  refine replaceAround_undo wrapS wDoc wDoc' 0 4 0 4 wSl 1 false _ ?_ ?_ ?_ ?_ ?_ ?_ w_fwd w_inv ?_ ?_ ?_ ?_
+  · decide
+  · simp [wDoc, Node.kids, fnorm, fnormKids, Node.norm, chainOk]
+  · simp [wSl, fnorm, fnormKids, Node.norm, chainOk]
+  · simp [wSl, Slice.wf, spineL, spineR]
+  · simp [wSl, Slice.size]
+  · omega
+  · intro h; simp at h
+  · intro old rem gap h1 h2 h3
+    rw [w_slice] at h1 h3
+    simp at h1 h3
+    subst h1; subst h3
+    simp [Slice.removeBetween, removeRange, removeRange.removeFlat, inRange, flatAt, fcut, fappend] at h2
+    subst h2
+    exact ⟨_, by simp [Slice.insertAt, insertInto, flatInsert, fcut, fappend]; rfl⟩
+  · intro gap inserted h1 h2
+    rw [w_slice] at h1
+    simp at h1; subst h1
+    rw [w_ins] at h2
+    simp at h2; subst h2
+    exact sidesCompatible_of_closed _ _ _ _ _ (.inl rfl)
+  · simp [wDoc', Node.kids, wSl, Slice.size, alignedAt]
+end ExampleAround
 
 mutual
 /-- every node carries its attributes the way the library builds them (`compute_attrs` would return
